@@ -117,6 +117,12 @@ package swap
 //@ requires @C24 channel: channel == swap.GetScid()
 //@ requires @C05 bitcoin-window: swap.GetChain() == btc_chain ==> (swap.StartingBlockHeight != 0 && ghost.tipKnown && mi(ghost.tip) - mi(swap.StartingBlockHeight) <= 504 && uf("payreqCltv", int64(0), payreq) <= 504 && maxTotalCLTVDelta == 0)
 //@ requires @C13 anchored: swap.GetChain() == l_btc_chain ==> swap.StartingBlockHeightSet
+//@ ensures result1 == nil ==> result0 != ""
+//@ assigns nothing
+
+// a successful (followed) payment yields the preimage
+//@ interface LightningClient.RecoverClaimPayment
+//@ ensures result1 == nil ==> result0 != ""
 //@ assigns nothing
 
 // ---------------------------------------------------------------------------
@@ -341,8 +347,9 @@ package swap
 // C13: a request / agreement (the messages that carry the taker's swap pubkey)
 // leaves a Liquid protocol-7 taker only with the anchor already durable
 //@ interface Messenger.SendMessage
-//@ requires @C13 anchor-durable: ((messageType == int(messages.MESSAGETYPE_SWAPOUTREQUEST) || messageType == int(messages.MESSAGETYPE_SWAPINAGREEMENT)) && swap.GetChain() == l_btc_chain && swap.GetProtocolVersion() == 7) ==> (swap.StartingBlockHeightSet && ghost.dSet && ghost.dHeight == swap.StartingBlockHeight)
-//@ requires @C09 to-counterparty: peerId == swap.PeerNodeId
+//@ requires @C13,in:swap anchor-durable: ((messageType == int(messages.MESSAGETYPE_SWAPOUTREQUEST) || messageType == int(messages.MESSAGETYPE_SWAPINAGREEMENT)) && swap.GetChain() == l_btc_chain && swap.GetProtocolVersion() == 7) ==> (swap.StartingBlockHeightSet && ghost.dSet && ghost.dHeight == swap.StartingBlockHeight)
+//@ requires @C09,in:swap to-counterparty: peerId == swap.PeerNodeId
+//@ requires @C09 to-sender: ghost.msgPeer == "" || peerId == ghost.msgPeer
 //@ assigns nothing
 
 // the request amount is validated to convert to millisatoshi without overflow
@@ -495,6 +502,8 @@ package swap
 //@ interface Action.Execute
 //@ requires @C13,C15,C07 persisted-before: !ghost.dirty
 //@ ensures ghost.dirty
+// actions receive the services and the swap data, not the state machine: its id is out of their reach
+//@ ensures @in:s s.SwapId == old(s.SwapId) && s.SwapId.String() == old(s.SwapId.String())
 
 //@ interface Store.UpdateData
 //@ ensures result == nil ==> !ghost.dirty
@@ -502,9 +511,12 @@ package swap
 
 //@ func (*SwapStateMachine).SendEvent
 //@ property C09 C13 C15 C01 C04 C07 C08 C12
-//@ requires s != nil && s.swapServices != nil && s.Data != nil && !ghost.dirty
+//@ requires clean: !ghost.dirty
+//@ typeinv s != nil && s.swapServices != nil && s.Data != nil
+//@ requires @C09 addressed: ghost.msgPeer == "" || s.Data.PeerNodeId == ghost.msgPeer
 //@ loop 0 invariant !ghost.dirty
 //@ ensures @C13,C15 persisted: (result1 == nil) ==> !ghost.dirty
+//@ ensures @C09,C10 id-stable: s.SwapId == old(s.SwapId) && s.SwapId.String() == old(s.SwapId.String())
 
 //@ func (*SwapStateMachine).Recover
 //@ property C13 C15 C07
@@ -516,3 +528,154 @@ package swap
 //@ entryinv getSwapOutReceiverStates Started @C07,C15,C16 chain-valid: swap.GetChain() == btc_chain || swap.GetChain() == l_btc_chain
 // a recorded opening transaction implies that the premium was checked before it was broadcast
 //@ entryinv getSwapInSenderStates State_SwapInSender_BroadcastOpeningTx @C07,C15 recorded-implies-checked: swap.OpeningTxBroadcasted != nil ==> (swap.SwapInAgreement.Premium <= swap.SwapInRequest.PremiumLimit && swap.SwapInAgreement.Premium <= 9223372036854775 && mi(swap.SwapInRequest.Amount) + mi(swap.SwapInAgreement.Premium) >= 0 && mi(swap.SwapInRequest.Amount) + mi(swap.SwapInAgreement.Premium) <= 9223372036854775)
+
+// C06: once the claim payment has succeeded (its preimage is stored) the pay
+// state can only go on to the claim state, also when it is re-run after a restart
+//@ stepinv getSwapOutSenderStates PayState @C06 paid-goes-on: old(swap.ClaimPreimage) != "" ==> result == Event_ActionSucceeded
+//@ stepinv getSwapInReceiverStates PayState @C06 paid-goes-on: old(swap.ClaimPreimage) != "" ==> result == Event_ActionSucceeded
+// ... and a payment that succeeds is recorded before the machine moves on
+//@ entryinv getSwapOutSenderStates Paid @C06 preimage-stored: swap.ClaimPreimage != ""
+//@ entryinv getSwapInReceiverStates Paid @C06 preimage-stored: swap.ClaimPreimage != ""
+
+// ---------------------------------------------------------------------------
+// service level: one active swap per channel, swap ids are not reusable (C09 C10)
+// ---------------------------------------------------------------------------
+
+// lockSwap: for an arbitrary key k0 of the map before the call. The channel
+// ids are compared modulo the separator ('x' or ':').
+//@ func (*SwapService).lockSwap
+//@ property C10 C09
+//@ forall k0 string
+//@ requires s != nil && fsm != nil && s.activeSwaps != nil
+//@ loop 0 invariant @C10 checked: (visited(k0) && has(s.activeSwaps, k0)) ==> s.activeSwaps[k0].Data.GetScidInBoltFormat() != strings.ReplaceAll(channelId, ":", "x")
+//@ loop 0 invariant @C10,C09 unchanged: has(s.activeSwaps, k0) == old(has(s.activeSwaps, k0)) && s.activeSwaps[k0] == old(s.activeSwaps[k0])
+//@ ensures @C10 one-per-channel: (result == nil && old(has(s.activeSwaps, k0))) ==> old(s.activeSwaps[k0].Data.GetScidInBoltFormat()) != strings.ReplaceAll(channelId, ":", "x")
+//@ ensures @C09 id-not-reused: (result == nil) ==> !old(has(s.activeSwaps, swapId))
+//@ ensures @C09,C10 refused-unchanged: result != nil ==> (has(s.activeSwaps, k0) == old(has(s.activeSwaps, k0)) && s.activeSwaps[k0] == old(s.activeSwaps[k0]))
+//@ ensures @C10 inserted: result == nil ==> (has(s.activeSwaps, swapId) && s.activeSwaps[swapId] == fsm)
+//@ ensures @C09,C10 others-unchanged: k0 != swapId ==> (has(s.activeSwaps, k0) == old(has(s.activeSwaps, k0)) && s.activeSwaps[k0] == old(s.activeSwaps[k0]))
+//@ assigns s.activeSwaps[swapId]
+
+// the store knows a swap id: rigid over a request handler up to the first store write
+//@ interface Store.GetData
+//@ ensures (result1 == nil) == uf("idStored", true, id)
+//@ ensures result1 != nil ==> result1 == ErrDataNotAvailable || uf("storeBroken", true, id)
+//@ assigns nothing
+
+//@ func (*SwapService).lockRequestedSwap
+//@ property C09 C10
+//@ forall k0 string
+//@ requires s != nil && fsm != nil && s.activeSwaps != nil && s.swapServices != nil
+//@ ensures @C09 known-id-refused: (uf("idStored", true, swapId) || old(has(s.activeSwaps, swapId))) ==> result != nil
+//@ ensures @C10 one-per-channel: (result == nil && old(has(s.activeSwaps, k0))) ==> old(s.activeSwaps[k0].Data.GetScidInBoltFormat()) != strings.ReplaceAll(channelId, ":", "x")
+//@ ensures @C09,C10 refused-unchanged: result != nil ==> (has(s.activeSwaps, k0) == old(has(s.activeSwaps, k0)) && s.activeSwaps[k0] == old(s.activeSwaps[k0]))
+//@ ensures @C10 inserted: result == nil ==> (has(s.activeSwaps, swapId) && s.activeSwaps[swapId] == fsm)
+//@ ensures @C09,C10 others-unchanged: k0 != swapId ==> (has(s.activeSwaps, k0) == old(has(s.activeSwaps, k0)) && s.activeSwaps[k0] == old(s.activeSwaps[k0]))
+//@ assigns s.activeSwaps[swapId]
+
+//@ func (*SwapService).RemoveActiveSwap
+//@ forall k0 string
+//@ requires s != nil
+//@ ensures !has(s.activeSwaps, swapId)
+//@ ensures k0 != swapId ==> (has(s.activeSwaps, k0) == old(has(s.activeSwaps, k0)) && s.activeSwaps[k0] == old(s.activeSwaps[k0]))
+
+//@ func (*SwapService).GetActiveSwap
+//@ property C09
+//@ requires s != nil
+//@ ensures @C09 by-id: (result1 == nil) == has(s.activeSwaps, swapId)
+//@ ensures @C09 by-id-value: result1 == nil ==> result0 == s.activeSwaps[swapId]
+//@ ensures result1 != nil ==> result0 == nil
+//@ assigns nothing
+
+//@ func (*SwapService).isMessageSenderExpectedPeer
+//@ property C09
+//@ requires s != nil
+//@ ensures @C09 counterparty-only: (result1 == nil && result0) ==> (has(s.activeSwaps, swapId.String()) && s.activeSwaps[swapId.String()].Data.PeerNodeId == senderId)
+//@ ensures @C09 unknown-swap: !has(s.activeSwaps, swapId.String()) ==> result1 != nil
+//@ assigns nothing
+
+// ---------------------------------------------------------------------------
+// message dispatch (C09): while a message from peer ghost.msgPeer is handled,
+// events are sent only to swaps whose counterparty is that peer, looked up by
+// the id the message carries; replies go to that peer only
+// ---------------------------------------------------------------------------
+//@ ghost msgPeer string
+
+//@ func (*SwapService).logMsg
+//@ forall k0 string
+//@ requires s != nil
+//@ ensures has(s.activeSwaps, k0) == old(has(s.activeSwaps, k0)) && s.activeSwaps[k0] == old(s.activeSwaps[k0])
+//@ assigns s.lastMsgLog[swapId]
+
+//@ func newSwapOutReceiverFSM
+//@ trusted
+//@ ensures result != nil && result.SwapId == swapId && result.Data != nil && result.Data.PeerNodeId == peer && result.swapServices == services && result.Type == SWAPTYPE_OUT && result.Role == SWAPROLE_RECEIVER
+//@ assigns nothing
+
+//@ func newSwapInReceiverFSM
+//@ trusted
+//@ ensures result != nil && result.SwapId == swapId && result.Data != nil && result.Data.PeerNodeId == peer && result.swapServices == services && result.Type == SWAPTYPE_IN && result.Role == SWAPROLE_RECEIVER
+//@ assigns nothing
+
+//@ interface LightningClient.CanSpend
+//@ assigns nothing
+//@ interface LightningClient.Implementation
+//@ assigns nothing
+//@ interface LightningClient.ReceivableMsat
+//@ assigns nothing
+//@ interface LightningClient.ProbePayment
+//@ assigns nothing
+
+//@ func (*SwapService).OnMessageReceived
+//@ property C09
+//@ requires s != nil && s.swapServices != nil && s.activeSwaps != nil && ghost.msgPeer == peerId && peerId != "" && !ghost.dirty
+
+//@ func (*SwapService).OnSwapOutAgreementReceived
+//@ property C09
+//@ requires s != nil && s.activeSwaps != nil && message != nil && !ghost.dirty
+//@ requires @C09 sender-is-counterparty: has(s.activeSwaps, message.SwapId.String()) && s.activeSwaps[message.SwapId.String()].Data.PeerNodeId == ghost.msgPeer
+
+//@ func (*SwapService).OnSwapInAgreementReceived
+//@ property C09
+//@ requires s != nil && s.activeSwaps != nil && msg != nil && !ghost.dirty
+//@ requires @C09 sender-is-counterparty: has(s.activeSwaps, msg.SwapId.String()) && s.activeSwaps[msg.SwapId.String()].Data.PeerNodeId == ghost.msgPeer
+
+//@ func (*SwapService).OnTxOpenedMessage
+//@ property C09
+//@ requires s != nil && s.activeSwaps != nil && message != nil && !ghost.dirty
+//@ requires @C09 sender-is-counterparty: has(s.activeSwaps, message.SwapId.String()) && s.activeSwaps[message.SwapId.String()].Data.PeerNodeId == ghost.msgPeer
+
+//@ func (*SwapService).OnCancelReceived
+//@ property C09
+//@ requires s != nil && s.activeSwaps != nil && cancelMsg != nil && !ghost.dirty
+//@ requires @C09 sender-is-counterparty: has(s.activeSwaps, swapId.String()) && s.activeSwaps[swapId.String()].Data.PeerNodeId == ghost.msgPeer
+
+//@ func (*SwapService).OnCoopCloseReceived
+//@ property C09
+//@ requires s != nil && s.activeSwaps != nil && coopCloseMessage != nil && !ghost.dirty
+//@ requires @C09 sender-is-counterparty: has(s.activeSwaps, swapId.String()) && s.activeSwaps[swapId.String()].Data.PeerNodeId == ghost.msgPeer
+
+//@ func (*SwapService).OnSwapOutRequestReceived
+//@ property C09 C10
+//@ forall k0 string
+//@ requires service: s != nil && s.swapServices != nil && s.activeSwaps != nil
+//@ requires message: message != nil
+//@ requires from: ghost.msgPeer == peerId && peerId != ""
+//@ requires clean: !ghost.dirty
+//@ ensures @C09 known-id-untouched: (old(has(s.activeSwaps, k0)) && k0 == old(swapId.String())) ==> (has(s.activeSwaps, k0) && s.activeSwaps[k0] == old(s.activeSwaps[k0]))
+//@ ensures @C09 others-untouched: k0 != old(swapId.String()) ==> (has(s.activeSwaps, k0) == old(has(s.activeSwaps, k0)) && s.activeSwaps[k0] == old(s.activeSwaps[k0]))
+
+//@ func (*SwapService).OnSwapInRequestReceived
+//@ property C09 C10
+//@ forall k0 string
+//@ requires service: s != nil && s.swapServices != nil && s.activeSwaps != nil
+//@ requires message: message != nil
+//@ requires from: ghost.msgPeer == peerId && peerId != ""
+//@ requires clean: !ghost.dirty
+//@ ensures @C09 known-id-untouched: (old(has(s.activeSwaps, k0)) && k0 == old(swapId.String())) ==> (has(s.activeSwaps, k0) && s.activeSwaps[k0] == old(s.activeSwaps[k0]))
+//@ ensures @C09 others-untouched: k0 != old(swapId.String()) ==> (has(s.activeSwaps, k0) == old(has(s.activeSwaps, k0)) && s.activeSwaps[k0] == old(s.activeSwaps[k0]))
+
+// The active-swap map is owned by the service: only lockSwap and RemoveActiveSwap
+// change it, so calls that cannot reach them leave it unchanged (checked by an
+// SSA scan plus call-graph reachability; see govc/encaps.go).
+//@ encapsulated @C09,C10 SwapService.activeSwaps writers (*SwapService).lockSwap (*SwapService).RemoveActiveSwap NewSwapService
